@@ -237,6 +237,69 @@ pub struct DefaultsFirst {
 }
 proj_struct!(DefaultsFirst { max_retries, display_name, back_off, owner_id, custom_one, last_one });
 
+/// non-ASCII identifiers under rename_all (Unicode lower-casing, not ASCII lower-casing)
+#[derive(Deserr, Debug)]
+#[deserr(rename_all = lowercase, deny_unknown_fields)]
+pub struct LowerUnicode {
+    Été: u8,
+    ÑAME_x: bool,
+    plain: Option<u8>,
+}
+proj_struct!(LowerUnicode { Été, ÑAME_x, plain });
+
+/// keys that are not identifier-like: non-ASCII, very long, empty, with spaces / dots / quotes
+#[derive(Deserr, Debug)]
+#[deserr(deny_unknown_fields)]
+pub struct OddKeys {
+    #[deserr(rename = "prénom")]
+    first: String,
+    #[deserr(rename = "café")]
+    drink: u8,
+    #[deserr(rename = "a_very_long_field_name_for_the_largest_budget")]
+    long_one: bool,
+    #[deserr(rename = "", default)]
+    empty: Option<u8>,
+    #[deserr(rename = "with space", default)]
+    spaced: Option<u8>,
+    #[deserr(rename = "dotted.key[0]", default)]
+    dotted: Option<u8>,
+    #[deserr(rename = "say \"hi\"", default)]
+    quoted: Option<u8>,
+}
+proj_struct!(OddKeys { first, drink, long_one, empty, spaced, dotted, quoted });
+
+#[derive(Deserr, Debug)]
+pub enum OddNames {
+    #[deserr(rename = "café")]
+    Coffee,
+    #[deserr(rename = "thé")]
+    Tea,
+    #[deserr(rename = "日本茶")]
+    Green,
+    #[deserr(rename = "a_very_long_variant_name_for_the_largest_budget")]
+    Long,
+}
+proj_enum!(OddNames { Coffee, Tea, Green, Long });
+
+/// PascalCase identifiers with digits: camelCase only lowers the first letter
+#[derive(Deserr, Debug)]
+#[deserr(tag = "v", rename_all = camelCase)]
+pub enum DigitVariants {
+    V2Beta { x: u8 },
+    Utf8Lossy,
+    Plain7,
+}
+proj_enum!(DigitVariants { V2Beta { x }, Utf8Lossy, Plain7 });
+
+#[derive(Deserr, Debug)]
+#[deserr(rename_all = camelCase)]
+pub enum DigitUnit {
+    V2Beta,
+    Utf8Lossy,
+    Sha256,
+}
+proj_enum!(DigitUnit { V2Beta, Utf8Lossy, Sha256 });
+
 // ---------------------------------------------------------------------------------- default / skip
 #[derive(Deserr, Debug)]
 pub struct Defaults {
@@ -736,6 +799,25 @@ pub fn defs() -> Defs {
             f("last_one", Ty::Bool).key("lastOne"),
         ],
     )));
+    d.add(st(StructDef { deny: Deny::Default, ..sdef("LowerUnicode", vec![f("Été", u(8)).key("été"), f("ÑAME_x", Ty::Bool).key("ñame_x"), f("plain", opt(u(8)))]) }));
+    d.add(st(StructDef {
+        deny: Deny::Default,
+        ..sdef(
+            "OddKeys",
+            vec![
+                f("first", Ty::Str).key("prénom"),
+                f("drink", u(8)).key("café"),
+                f("long_one", Ty::Bool).key("a_very_long_field_name_for_the_largest_budget"),
+                f("empty", opt(u(8))).key("").default(Proj::None),
+                f("spaced", opt(u(8))).key("with space").default(Proj::None),
+                f("dotted", opt(u(8))).key("dotted.key[0]").default(Proj::None),
+                f("quoted", opt(u(8))).key("say \"hi\"").default(Proj::None),
+            ],
+        )
+    }));
+    d.add(Def::UnitEnum(udef("OddNames", &[("Coffee", "café"), ("Tea", "thé"), ("Green", "日本茶"), ("Long", "a_very_long_variant_name_for_the_largest_budget")])));
+    d.add(Def::Enum(edef("DigitVariants", "v", vec![vd("V2Beta", "v2Beta", Some(vec![f("x", u(8))])), vd("Utf8Lossy", "utf8Lossy", None), vd("Plain7", "plain7", None)])));
+    d.add(Def::UnitEnum(udef("DigitUnit", &[("V2Beta", "v2Beta"), ("Utf8Lossy", "utf8Lossy"), ("Sha256", "sha256")])));
     d.add(st(sdef("LowerRaw", vec![f("type", u(8)), f("Other", Ty::Bool).key("other"), f("fn", opt(u(8)))])));
     d.add(st(sdef("CamelRaw", vec![f("match", u(8)), f("two_words", Ty::Bool).key("twoWords"), f("loop", opt(u(8))).key("r#loop")])));
     d.add(st(sdef(
@@ -999,6 +1081,11 @@ pub fn registry() -> Registry {
     r.all::<VariantBoth>("VariantBoth", named("VariantBoth"), &["derive", "enum", "rename"]);
     r.all::<SkipThenAttrs>("SkipThenAttrs", named("SkipThenAttrs"), &["derive", "skip", "conv", "rename", "default"]);
     r.all::<DefaultsFirst>("DefaultsFirst", named("DefaultsFirst"), &["derive", "default", "rename", "custom-fn"]);
+    r.all::<LowerUnicode>("LowerUnicode", named("LowerUnicode"), &["derive", "rename", "deny"]);
+    r.all::<OddKeys>("OddKeys", named("OddKeys"), &["derive", "rename", "deny", "default"]);
+    r.all::<OddNames>("OddNames", named("OddNames"), &["derive", "unit-enum", "rename"]);
+    r.all::<DigitVariants>("DigitVariants", named("DigitVariants"), &["derive", "enum", "rename"]);
+    r.all::<DigitUnit>("DigitUnit", named("DigitUnit"), &["derive", "unit-enum", "rename"]);
     r.all::<LowerRaw>("LowerRaw", named("LowerRaw"), &["derive", "rename", "raw-ident"]);
     r.all::<CamelRaw>("CamelRaw", named("CamelRaw"), &["derive", "rename", "raw-ident"]);
     r.all::<MissingRenamed>("MissingRenamed", named("MissingRenamed"), &["derive", "rename", "custom-fn"]);
